@@ -110,7 +110,11 @@ fn pass_2_internal(segment: &Segment, common_context: &CommonContext) -> Result<
                     DataDefine::Dw => items.get_words(common_context),
                     DataDefine::Dd => items.get_double_words(common_context),
                     DataDefine::Dq => items.get_quad_words(common_context),
-                }?;
+                };
+                let data = match data {
+                    Ok(data) => data,
+                    Err(e) => bail!("{}, {}", e, line),
+                };
                 cur_address += if let SegmentType::Code = segment.t {
                     data.len() as u32 / 2
                 } else {
@@ -144,7 +148,10 @@ fn pass_2_internal(segment: &Segment, common_context: &CommonContext) -> Result<
                 }
             }
             Item::Set(name, expr) => {
-                let value = expr.run(common_context)?;
+                let value = match expr.run(common_context) {
+                    Ok(value) => value,
+                    Err(e) => bail!("{}, {}", e, line),
+                };
                 let key = name.to_lowercase();
                 if common_context.exist(name) {
                     let mut sets = common_context.sets.borrow_mut();
